@@ -22,7 +22,7 @@ from ..sym import SymBytes, SymInt, W, byte_of, sym_var
 
 def tier_opts(tier):
     if tier == "quick":
-        return dict(N=5, class_paths=1000, class_seconds=40, corrupt_paths=200, regions=shapes.REGIONS_QUICK)
+        return dict(N=5, class_paths=1000, class_seconds=40, corrupt_paths=150, regions=shapes.REGIONS_QUICK)
     return dict(N=7, class_paths=12000, class_seconds=90, corrupt_paths=2500, regions=shapes.REGIONS_QUICK, wall_budget=27 * 60)
 
 
@@ -123,11 +123,13 @@ class Arbitrary(Base):
 
 
 class Corrupt(Base):
-    """valid encoding of a symbolic base-shape instance with one byte overwritten"""
+    """valid encoding of a symbolic base-shape instance with one byte overwritten (symbolic position
+    and value), or one symbolic byte inserted / one byte deleted at a chosen position"""
 
-    def __init__(self, cls, opts, shape):
+    def __init__(self, cls, opts, shape, edit="overwrite"):
         super().__init__(cls, opts)
         self.shape = shape
+        self.edit = edit
 
     def run(self, c):
         b = shapes.Builder(c, self.shape, regions=self.opts["regions"], max_array=1)
@@ -145,6 +147,20 @@ class Corrupt(Base):
         idx = [i for i, it in enumerate(items) if not type(it).__name__ == "Blob"]
         if not idx:
             return []
+        if self.edit != "overwrite":
+            # insertion / deletion: the position is a harness choice among the first and last byte positions
+            cand = idx[:16] + [i for i in idx[-8:] if i not in idx[:16]]
+            k = c.choose(len(cand), "edit_pos")
+            at = cand[k]
+            if self.edit == "insert":
+                nv = z3.BitVec("corrupt_val", 8)
+                new = items[:at] + [byte_of(nv)] + items[at:]
+            else:
+                nv = None
+                new = items[:at] + items[at + 1:]
+            c.notes["corrupt"] = (at, nv, idx)
+            c.notes["orig_items"] = items
+            return self.decode(c, Src(SymBytes(new)), None)
         p, _ = sym_var("corrupt_pos", 0, len(idx) - 1)
         nv = z3.BitVec("corrupt_val", 8)
         diff = []
@@ -165,6 +181,13 @@ class Corrupt(Base):
     def witness(self, c, model, clause, info):
         p, nv, idx = c.notes["corrupt"]
         inst = shapes.concretise(c.notes["instance"], model)
+        if self.edit != "overwrite":
+            items = c.notes["orig_items"]
+            off = 0
+            for it in items[:p]:
+                off += (shapes.concretise(it.length, model) if type(it.length) is SymInt else it.length) if type(it).__name__ == "Blob" else 1
+            return {"class": shapes.class_id(self.cls), "kind": self.edit, "instance": shapes.to_jsonable(inst), "offset": off,
+                    "value": (model.eval(nv, model_completion=True).as_long() if nv is not None else None)}
         k = model.eval(p.e, model_completion=True).as_long()
         # byte offset of the corrupted item in the concrete encoding
         items = c.notes["orig_items"]
@@ -191,6 +214,8 @@ def task_class(args):
         explore(Arbitrary(cls, opts), max_paths=opts["class_paths"], stats=stats, deadline=deadline, hints=hints, range_bound=opts["N"])
     else:
         explore(Corrupt(cls, opts, {}), max_paths=opts["corrupt_paths"], stats=stats, deadline=deadline, hints=hints, range_bound=3)
+        for edit in ("insert", "delete"):
+            explore(Corrupt(cls, opts, {}, edit), max_paths=max(40, opts["corrupt_paths"] // 4), stats=stats, deadline=deadline, hints=hints, range_bound=3)
     if stats.unsupported and os.environ.get("VERIF_DEBUG"):
         print("UNSUPPORTED", cid, mode, stats.unsupported_msgs, flush=True)
     return {"class": cid, "mode": mode, "stats": stats.to_json(), "wall": round(time.time() - t0, 2)}
@@ -251,9 +276,9 @@ def check(tier):
         total, functions=["kio.serial._parse.entity_reader (read_entity, read_nullable_entity, tagged-field loop)", "kio.serial.readers.* (all)",
                           "kio.serial._serialize.entity_writer (re-encoding of whatever was returned)", "kio.static.primitive predicates reached on the way"],
         bounds={"arbitrary_buffer_bytes": opts["N"], "classes": len(targets), "class_selection": "one per plan signature" if tier == "quick" else "all",
-                "corruption": "one overwritten byte (symbolic position among the non-payload bytes, symbolic value) of the encoding of a symbolic base-shape instance",
+                "corruption": "of the encoding of a symbolic base-shape instance: one overwritten byte (symbolic position among the non-payload bytes, symbolic value); one inserted symbolic byte or one deleted byte at each of the first 16 and last 8 non-payload positions",
                 "corruption_classes": len(corrupt_targets), "paths_per_class_cap": opts["class_paths"], "loop_unrolling": "arrays up to N items individually, longer ones by the progress clause"},
-        outside=["buffers longer than N bytes other than corrupted valid encodings", "more than one corrupted byte, insertions/deletions other than through the arbitrary buffer",
+        outside=["buffers longer than N bytes other than corrupted valid encodings", "more than one corrupted/inserted/deleted byte",
                  "wall-clock time (work is bounded through the loop/progress clauses instead)", "MemoryError from allocating a huge payload is not modelled (reads return at most what the source holds)"],
         rule="one state = one completed symbolic path of the real reader over the symbolic buffer; distinct by construction",
         extra={"paths_by_mode": by_mode, "tasks_not_reached_within_wall_budget": len(skipped), "tasks_not_reached_sample": skipped[:20], "classes_with_path_cap_hit": len(capped), "cap_hits": capped[:40],
